@@ -197,7 +197,7 @@ PROPS = {
         "rule": "random trees, receiver at depth 0 and stacks down to depth 5, every kind (AND/OR/NOT/LIST/BASIC), parenthetical flags on stacks and "
                 "Conditions, chains of 1-4 single-element wrappers (mostly removable ones), Conditions holding stacks / Conditions / leaves (also as only "
                 "element, also read-only / no-nesting / with an error, which makes SetExpression refuse), empty stacks, nil elements, zero-valued "
-                "Stack / Condition elements, []any elements, alias forms a/as/p on stacks and Conditions, forward/negative index options, read-only "
+                "Stack / Condition elements, nil *Stack / *Condition elements, []any elements, alias forms a/as/p on stacks and Conditions, forward/negative index options, read-only "
                 "nested stacks, mutex on none / some / all nodes; the real Reveal() runs under a 3 s watchdog (timeout = DEADLOCK) with recover; the "
                 "resulting tree is read back through VerifDump (kinds, option bits, forms, leaves, keyword/operator) and compared with the heap "
                 "model's tree together with the order of mutex acquisitions (VerifHook); distinct = distinct tree text; non-trivial = the receiver "
@@ -212,8 +212,8 @@ PROPS = {
                                        "sync.Mutex as a non-re-entrant lock held for the duration of stack.reveal (lock/defer unlock)"],
         "assumptions": ["no Go stack object occurs at two places of the input tree (generators never alias; the theorems only need acyclicity)",
                         "elements are never non-nil pointers to the native Stack / Condition types (outside the value universe)",
-                        "nil *Stack / *Condition elements are excluded from the random stream: they make Reveal panic (open defect, see "
-                        "harness/corpus/C20-pending and C20_nilptr_panics); VERIF_C20_NILPTR=1 includes them"],
+                        "nil *Stack / *Condition elements (they satisfy Interface) are part of the random stream since repair F31 "
+                        "(revealDescend skips them); VERIF_C20_NILPTR=0 leaves them out"],
     },
 }
 
